@@ -3,6 +3,7 @@
   condition-variable side (worker.go, repaired tree):
 
     release()            releaseWaiters(cur.Add(^uint32(0)))
+    pause()              status.Store(paused) ; releaseWaiters(cur.Load())
     releaseWaiters(p)    if p != 0 { return }; w.mx.Lock(); w.waiters.Broadcast(); w.mx.Unlock()
     event loop           … after the inner loop: releaseWaiters(cur.Load())
     WaitUntilFinished    w.mx.Lock(); for condition() { w.waiters.Wait() }; w.mx.Unlock()
@@ -50,6 +51,7 @@ inductive Ev where
   | dCasOk (g : Nat) | dDeq (g : Nat) | dRel (g res : Nat)
   | enq (g : Nat) | deqX (g : Nat) | relX (g res : Nat)
   | stStatus (g v : Nat) | stConc (g v : Nat)
+  | pCur (g v : Nat)                    -- pause(): releaseWaiters(cur.Load()) right after status.Store(paused)
   | notify (g : Nat) (sent : Bool)
   -- condition variable side
   | lockMx (g : Nat) | unlockMx (g : Nat)
@@ -148,6 +150,9 @@ def step (s : State) : Ev → Except String State
     if v == running then .ok (owe { s with ws := v } g) else .ok { s with ws := v }
   | .stConc g v =>
     if v > s.conc then .ok (owe { s with conc := v } g) else .ok { s with conc := v }
+  | .pCur g v =>
+    if v != s.cur then .error s!"pause: loaded cur={v}, model has {s.cur}"
+    else if v == 0 then .ok (oweBc s g) else .ok s
   | .notify g sent =>
     if sent == s.tok then .error s!"notify: send result {sent} with token {s.tok}"
     else if s.owes g == 0 then .ok { s with tok := true }
